@@ -24,6 +24,7 @@ package crl
 //@   ensures[C01] the_presented_certificate_is_checked: arg(Repository.IsRevoked#1, 1) == clientCertificate
 
 //@ func CRLRevocationChecker.Provision
+//@   constructor
 //@   props C15 C19 C20 C03
 //@   requires c != nil && crlConfig != nil && crlConfig.CDPConfig != nil && logger != nil && norwlocks() && unheld(&workDirInUseMutex) && unheld(&crlUpdateMutex) && certsNonNil(crlConfig.TrustedSignatureCerts)
 //@   assigns L.held, crlrepository.Entry.CRLStore, crlrepository.Entry.Loaded, crlrepository.Entry.LastUpdateSignatureVerifyFailed, crlrepository.Entry.LastUpdateSignature, crlrepository.Entry.Chains, H.crlrepository.Repository.crlRepository, M.map[string]*crlrepository.Entry, crlstore.MapStore.Map, M.map[string][]uint8, crlstore.LevelDbStore.Db, H.crlloader.MultiSchemesCRLLoader, H.crlloader.URLLoader, H.crlloader.FileLoader, X.ldbhas, X.fs, X.net, X.retry, X.stream, X.spos, X.hacc, X.hkind, E.uint8, E.any, E.string, fresh:E.*core.CertificateChainEntry, fresh:E.core.CertificateChain, fresh:E.core.CertificateChainEntry, *c, M.map[string]int, G.crl.workDirsInUse, G.crl.lastCrlUpdateFinishTime, X.ticker
@@ -57,6 +58,7 @@ package crl
 //@   loop 1 invariant chainsOK(chains)
 
 //@ func CRLRevocationChecker.initCRLUpdateTicker
+//@   constructor
 //@   props C15 C19 C07
 //@   requires checkerOK(c)
 //@   assigns *c
